@@ -69,6 +69,8 @@ theorem parse_safe (s : List Char) : Safe (Key.parse s) := by
   · rw [h]; trivial
   · rw [h]; exact safe_ia
 
+theorem wordKey_safe (s : List Char) : Safe (wordKey s) := parse_safe _
+
 theorem findAbbr_safe {α : Type} (k : Key) (t : List (Key × α)) (i : Nat) (p : Option (Nat × α)) :
     Safe (findAbbr k t i p) := by
   induction t generalizing i p with
@@ -364,7 +366,7 @@ theorem evalSingleArgument_safe (cfg : Cfg) (h : HState) (ai : It) (hI : ai.Inv)
   unfold evalSingleArgument
   split
   · exact processArg_safe _ _ _ _ hI hle
-  · apply SafeIt.bind (parse_safe _); intro _ _
+  · apply SafeIt.bind (wordKey_safe _); intro _ _
     exact processArg_safe _ _ _ _ hI hle
   · split
     · exact SafeIt.same hI hle _ _
